@@ -26,7 +26,7 @@ BUILTIN_NAMES = {
     "list", "tuple", "isinstance", "ord", "chr", "divmod", "bool", "any", "all", "sorted", "iter", "next",
     "ceil", "floor", "sqrt", "hash", "getattr", "cast", "dict", "set", "print", "repr", "hasattr", "callable", "super",
 }
-SPEC_BUILTINS = {"old", "implies", "cells", "width_of", "lsum", "fresh_result", "is_ref", "seq_eq", "iff", "ite", "prefix_pad", "char_at", "count_true"}
+SPEC_BUILTINS = {"old", "acq", "implies", "cells", "width_of", "lsum", "fresh_result", "is_ref", "seq_eq", "iff", "ite", "prefix_pad", "char_at", "count_true"}
 
 
 class CallMixin:
@@ -140,6 +140,8 @@ class CallMixin:
             return
         if isinstance(b, ObjState):
             if attr in b.fields:
+                if hasattr(self, "check_field_read"):
+                    self.check_field_read(b, attr, st)
                 yield b.fields[attr], st
                 return
             yield from self.class_attr(b.cls, base, attr, st)
@@ -242,6 +244,24 @@ class CallMixin:
                         val = cur
                 for f_ in os_.pc[len(st.old.pc):]:
                     st.assume(f_)
+                yield val, st
+                return
+            if self.spec_mode and fname == "acq":
+                snap = st.env.get("__acq__")
+                if snap is None:
+                    raise Unsupported("acq() outside a function with a monitor region")
+                olds = snap.data.copy()
+                outs = list(self.ev(node.args[0], olds))
+                if len(outs) != 1:
+                    raise Unsupported("acq() expression forks")
+                val, os_ = outs[0]
+                if isinstance(val, VRef):
+                    cur = self.deref(val, os_)
+                    if isinstance(cur, ObjState):
+                        so_ = Sort("rec", (), cur.cls)
+                        val = V(so_, self.to_term(cur, so_, os_))
+                    else:
+                        val = cur
                 yield val, st
                 return
             if fname in ("all", "any", "sum") and node.args and isinstance(node.args[0], ast.GeneratorExp) and fname not in st.env:
@@ -424,6 +444,9 @@ class CallMixin:
         if self.inline_depth > 6:
             raise Unsupported("inline depth")
         env = self.bind_params(fn, args, kwargs, st, mod)
+        for k_, v_ in st.env.items():
+            if k_.startswith("ghost_") or k_.startswith("__"):
+                env.setdefault(k_, v_)
         saved = (st.env, self.cur_mod, self.cur_fn, self.cur_loopbase)
         sub = st
         sub.env = env
@@ -437,7 +460,9 @@ class CallMixin:
             self.inline_depth -= 1
             self.cur_mod, self.cur_fn, self.cur_loopbase = saved[1], saved[2], saved[3]
         for sig, s2 in outs:
+            ghosts = {k_: v_ for k_, v_ in s2.env.items() if k_.startswith("ghost_") or k_ in ("__acq__", "__yielded__")}
             s2.env = dict(saved[0])
+            s2.env.update(ghosts)
             if sig[0] == "return":
                 yield sig[1], s2
             elif sig[0] == "next":
@@ -504,6 +529,11 @@ class CallMixin:
         if c.trusted:
             self.trusted_used.add(f"{c.qual}: {c.trusted}")
         self.callees_used.add(c.qual + (" (trusted)" if c.trusted else " (contract)"))
+        if hasattr(self, "flush_writebacks"):
+            self.flush_writebacks(st)
+        for g_, gv in st.env.items():
+            if g_.startswith("ghost_") and g_ not in env:
+                env[g_] = gv
         pre = st.copy()
         pre.env = dict(env)
         for idx, r in enumerate(c.requires):
@@ -529,6 +559,8 @@ class CallMixin:
         try:
             for e in c.ensures:
                 st.assume(self.spec_bool(e, post_env, st))
+            for g_, expr in c.ghost_update.items():
+                st.env[g_] = self.eval_spec_text(expr, post_env, st)
         finally:
             st.old = saved_old
         yield res, st
@@ -635,6 +667,10 @@ class CallMixin:
         v0 = self.deref(v, st)
         if isinstance(v0, VFunc) and v0.kind == "iterval":
             return v0.data
+        if isinstance(v0, ObjState) and v0.cls == "__iterator__":
+            base = v0.fields["it"].data
+            pos = v0.fields["pos"].t
+            return Iter(z3.simplify(z3.If(base.length > pos, base.length - pos, 0)), lambda i, s, b=base, p=pos: b.get(z3.simplify(p + i), s), "iterator-rest")
         if isinstance(v0, VTuple):
             items = v0.items
             def get(i, s, items=items):
@@ -660,7 +696,9 @@ class CallMixin:
         else:
             raise Unsupported("range with step")
         n = z3.simplify(z3.If(hi > lo, hi - lo, 0))
-        return Iter(n, lambda i, s, lo=lo: V(INT, self.from_mathint(z3.simplify(lo + i))), "range")
+        it = Iter(n, lambda i, s, lo=lo: V(INT, self.from_mathint(z3.simplify(lo + i))), "range")
+        it.lo, it.hi = lo, hi
+        return it
 
     def iter_value(self, it: Iter):
         return VFunc("iterval", data=it)
@@ -707,12 +745,36 @@ class CallMixin:
         if len(outs) != 1 or isinstance(outs[0][0], Exc):
             raise Unsupported("comprehension iterable forks / raises")
         itv, s = outs[0]
-        it = self.make_iter(itv, s)
-        k = z3.Int(fresh_name("ci"))
-        self._comp_start = fresh_mark()
-        sub = s.copy()
-        sub.assume(z3.And(0 <= k, k < it.length))
-        self.bind_target(g.target, it.get(k, sub), sub)
+        dcur = self.dict_cur(itv, s) if hasattr(self, "dict_cur") else None
+        if dcur is not None:
+            # iteration over a dict's keys inside all()/any(): quantify over the key sort
+            ks = dcur.sort.args[0]
+            k = z3.Const(fresh_name("dkey"), self.U.z3sort(ks))
+            self._comp_start = fresh_mark()
+            self._comp_iter = None
+            self._comp_range = self.U.z3sort(OPT(dcur.sort.args[1])).is_some(dcur.t[k])
+            sub = s.copy()
+            sub.assume(self._comp_range)
+            self.bind_target(g.target, self.from_term(k, ks, sub), sub)
+            it = None
+        else:
+            it = self.make_iter(itv, s)
+            k = z3.Int(fresh_name("ci"))
+            self._comp_start = fresh_mark()
+            self._comp_range = None
+            sub = s.copy()
+            if getattr(self, "_comp_direct", False) and it.desc == "range":
+                # quantifier over range(lo, hi): the bound variable is the element itself (no offset
+                # arithmetic inside array reads, which would defeat E-matching)
+                self._comp_range = z3.And(it.lo <= k, k < it.hi)
+                sub.assume(self._comp_range)
+                if z3.is_int_value(z3.simplify(it.lo)) and z3.simplify(it.lo).as_long() >= 0:
+                    sub.assume(k >= 0)
+                self.bind_target(g.target, V(INT, self.from_mathint(k)), sub)
+            else:
+                sub.assume(z3.And(0 <= k, k < it.length))
+                self.bind_target(g.target, it.get(k, sub), sub)
+        start_mark, crange = self._comp_start, self._comp_range
         conds = []
         for cnode in g.ifs:
             o = list(self.ev(cnode, sub))
@@ -728,12 +790,13 @@ class CallMixin:
             vals.append(o[0][0])
             sub = o[0][1]
         self._comp_iter = it
-        return k, it.length, vals, conds, sub, s
+        self._comp_start, self._comp_range = start_mark, crange
+        return k, (it.length if (it is not None and crange is None) else None), vals, conds, sub, s
 
     def ev_ListComp(self, node, st):
         k, n, vals, conds, sub, s = self._comp_body(node, [node.elt], st)
-        if conds:
-            raise Unsupported("filtered list comprehension")
+        if conds or n is None:
+            raise Unsupported("filtered list comprehension / comprehension over a dict")
         val = vals[0]
         elem_sort = self.sort_of(val, sub)
         ez = self.U.z3sort(elem_sort)
@@ -751,15 +814,31 @@ class CallMixin:
             yield v, s
 
     def quantified(self, fname, gen, st, extra_args):
-        k, n, vals, conds, sub, s = self._comp_body(gen, [gen.elt], st)
-        body_facts = sub.pc[len(s.pc) + 1:]
-        rng = z3.And(0 <= k, k < n, *conds)
+        self._comp_direct = fname in ("all", "any")
+        try:
+            k, n, vals, conds, sub, s = self._comp_body(gen, [gen.elt], st)
+        finally:
+            self._comp_direct = False
+        body_facts = [f for f in sub.pc[len(s.pc) + 1:] if not (z3.is_app(f) and f.eq(k >= 0))]
+        if n is None:
+            if fname == "sum":
+                raise Unsupported("sum over a dict")
+            rng = z3.And(self._comp_range, *conds)
+        else:
+            rng = z3.And(0 <= k, k < n, *conds)
         if fname in ("all", "any"):
             b = self.truthy(vals[0], sub)
             body_facts = sub.pc[len(s.pc) + 1:]
             b, rng, *body_facts = skolemize(k, self._comp_start, [b, rng] + list(body_facts))
             if fname == "all":
-                q = z3.ForAll([k], z3.Implies(z3.And(rng, *body_facts), b))
+                bs = z3.simplify(b) if not z3.is_quantifier(b) else b
+                if z3.is_quantifier(bs) and bs.is_forall() and not body_facts:
+                    # all(all(P for j ...) for i ...): one quantifier over both variables
+                    inner = [z3.Const(fresh_name(bs.var_name(ix)), bs.var_sort(ix)) for ix in range(bs.num_vars())]
+                    ib = z3.substitute_vars(bs.body(), *reversed(inner))
+                    q = z3.ForAll([k] + inner, z3.Implies(rng, ib))
+                else:
+                    q = z3.ForAll([k], z3.Implies(z3.And(rng, *body_facts), b))
             else:
                 q = z3.Exists([k], z3.And(rng, *body_facts, b))
             yield V(BOOL, q), s
@@ -768,10 +847,20 @@ class CallMixin:
         val = self.deref(vals[0], sub)
         if conds:
             raise Unsupported("filtered sum")
+        if isinstance(val, V) and val.sort.kind == "real":
+            term = val.t
+            body_facts = sub.pc[len(s.pc) + 1:]
+            term, *body_facts = skolemize(k, self._comp_start, [term] + list(body_facts))
+            arr = z3.Const(fresh_name("rsummand"), seqs.RealArr)
+            s.assume(z3.ForAll([k], z3.Implies(z3.And(0 <= k, k < n), z3.And(arr[k] == term, *body_facts)), patterns=[arr[k]]))
+            nn = z3.simplify(n)
+            s.assume(seqs.rpsum_nonneg_lemma(arr, z3.IntVal(0), nn))
+            if extra_args:
+                raise Unsupported("sum with start over generator")
+            yield V(REAL, seqs.rpsum(arr, nn) - seqs.rpsum(arr, 0)), s
+            return
         if not (isinstance(val, V) and val.sort.kind in ("int", "bool")):
-            if isinstance(val, V) and val.sort.kind == "real":
-                raise Unsupported("sum of floats over a generator")
-            raise Unsupported("sum of non-integers")
+            raise Unsupported("sum of non-numbers")
         term = self.to_mathint(self.as_int(val))
         body_facts = sub.pc[len(s.pc) + 1:]
         term, *body_facts = skolemize(k, self._comp_start, [term] + list(body_facts))
